@@ -37,7 +37,7 @@ CHECKS.update({
  "C10": ("exploration", "runtime monitor: exactly-once / no-stale sample history checker over read-size plans",
          "Each workflow is run on the same bytes under whole, 1-byte, prime, random and boundary-straddling read plans; the history checker demands that every judged sample is exactly one chunk of consecutive fresh stream bytes, judged once; verdict and named item must agree across plans, also when the final Read returns data together with io.EOF, through bytes.Reader/os.File/bufio/LimitedReader at non-zero start positions, and for single-shot requests up to 2^25+ bytes (2^30+4096 thorough); Fast variants also under delay plans and -race.", WF, "4/C10"),
  "C14": ("exploration", "runtime monitor: end-to-end verdict observation on degenerate sources (child process per batch)",
-         "All 256 stuck-at streams and 200+ short-cycle streams (seeded and adversarial period contents) through the real periodic workflows, a rotating subset (all in thorough) through the 10^6-bit workflows, SingleDetect on all-zero/all-one at every length 16..4096 and at 2*10^8 / 2^28 bytes (2^32 and 2^32+2^27 thorough), stuck-at data behind an accepted prefix of seekable readers and after a detection on a healthy source in the same process, and a 32-bit build of the harness for the small scenarios: must return, reject, and carry an error; panics in worker goroutines are attributed by the child-process protocol.", WF, "4/C14"),
+         "All 256 stuck-at streams and 200+ short-cycle streams (seeded and adversarial period contents) through the real periodic workflows, a rotating subset (all in thorough) through the 10^6-bit workflows, SingleDetect on all-zero/all-one at every length 16..4096 and at 2*10^8 / 2^28 bytes (2^32 and 2^32+2^27 thorough), stuck-at data behind an accepted prefix of seekable readers and after a detection on a healthy source in the same process, 64 goroutines x 40000 concurrent single-shot checks on stuck-at sources, and a 32-bit build of the harness for the small scenarios: must return, reject, and carry an error; panics in worker goroutines are attributed by the child-process protocol.", WF, "4/C14"),
 })
 
 CHECKS.update({
@@ -50,13 +50,13 @@ CHECKS.update({
  "C17": ("exploration", "runtime monitor: metamorphic relations",
          "Complement, reversal, rotation, block permutation and tail rewriting applied to generated sequences; the library's result on the transformed input must match its result on the original within 1e-8 (with the stated Q/variant swaps).", "Metamorphic: the library is compared with itself; trusted base is the transformation code in the harness.", "4/C17"),
  "C18": ("exploration", "runtime monitor: input snapshots, solo-vs-concurrent differential, Go race detector",
-         "Input (and canary-filled spare capacity) snapshots around every call, repeat-call equality, a soak of 70000 repeated calls per cheap entry point, weak-cache-key adversarial pairs (same prefix/suffix, same CRC-64/CRC-32/Adler-32, buffer re-use), one caller-owned bit buffer refilled in place between calls through every test, 2/8/64 goroutines on shared and private buffers and mixed input lengths at once (thorough: several DFT plan lengths >= 2^24 points) compared with solo results, and the same mixes in a -race build with DATA RACE reports counted.", "Trusted base: Go race detector (reports races of observed executions only).", "4/C18"),
+         "Input (and canary-filled spare capacity) snapshots around every call, repeat-call equality, a soak of 70000 repeated calls per cheap entry point, weak-cache-key adversarial pairs (same prefix/suffix, same CRC-64/CRC-32/Adler-32, buffer re-use), one caller-owned bit buffer refilled in place between calls through every test, every cheap entry point hammered from 64 goroutines on private inputs, 2/8/64 goroutines on shared and private buffers and mixed input lengths at once (thorough: several DFT plan lengths >= 2^24 points) compared with solo results, and the same mixes in a -race build with DATA RACE reports counted.", "Trusted base: Go race detector (reports races of observed executions only).", "4/C18"),
 })
 
 TOOLS = "Trusted base: Go toolchain (build, race detector, deadlock detector), strace/taskset as perturbation, the library's own functions as the reference for report values (C01-C05 decide those), the header-label parser in the harness. The only in-package instrumentation is /verif/overlay/rddetector/zz_verif_test.go injected with go test -overlay (tag verif); /repo is never written."
 CHECKS.update({
  "C13": ("exploration", "runtime monitor: exactly-once row checker + label-driven column oracle over real reports",
-         "Reports produced by the built rddetector binary (s in {1,2,7,40}, nested and suffix-named dirs, .dat, decoys, duplicate and hostile file names including names that are not valid UTF-8, -n 1..64, flag order/spelling, GOMAXPROCS 1/4/16, four process environments, strace-delayed report writes, a low open-file limit, -race build) and by the three worker functions driven in-package on real channels are checked: termination, header, one row per sample file, column count, every value against the library call named by that column's label.", TOOLS, "4/C13"),
+         "Reports produced by the built rddetector binary (s in {1,2,7,40}, nested and suffix-named dirs, .dat, decoys (including non-sample files larger than the samples), duplicate and hostile file names including names that are not valid UTF-8, -n 1..64, flag order/spelling, GOMAXPROCS 1/4/16, four process environments, strace-delayed report writes, a low open-file limit, -race build) and by the three worker functions driven in-package on real channels are checked: termination, header, one row per sample file, column count, every value against the library call named by that column's label.", TOOLS, "4/C13"),
  "C20": ("exploration", "runtime monitor: file-system post-state checker",
          "The built rdgen is run in fresh scratch directories over s, n, -o shapes (relative, nested, absolute, pre-populated, trailing slash, %, spaces, unicode, invalid UTF-8, dash, symlinked, re-used by an earlier run), CPU counts (taskset), GOMAXPROCS, four process environments, open-file limits below the sample count, strace delays and a -race build; the post-state must be exactly the requested files of the requested size with pairwise different contents inside the requested directory and nothing elsewhere; rddetector must accept the directory as s samples of n bits for the supported sizes.", TOOLS, "4/C20"),
 })
